@@ -103,11 +103,19 @@ func genDir(r *rand.Rand, dir string) []modVersion {
 				mv.Short = fmt.Sprintf("%012x", r.Int63())[:12]
 				info["Short"] = mv.Short
 			}
+			if r.Intn(4) == 0 {
+				// what an origin record looks like: percent-encoded URL, a reference with odd bytes
+				info["Origin"] = map[string]string{"VCS": "git", "URL": "https://example.com/my%20repo/a%2Fb%", "Ref": "refs/tags/" + vers + " {{.}} $HOME"}
+			}
 			ib, _ := json.Marshal(info)
 			mv.Files[".info"] = string(ib) + "\n"
 			mv.Files[".mod"] = "module " + path + "\n"
-			if r.Intn(3) == 0 {
+			switch r.Intn(4) {
+			case 0:
 				mv.Files[".mod"] = "module " + path + "\n\ngo 1.20\n"
+			case 1:
+				// bytes that mean something to a formatter or a template, in comments
+				mv.Files[".mod"] = "module " + path + "\n\n// 100% compatible with v0; see docs/a%b.md, %s %d %v %%\n// {{.Version}} $GOPATH \\n\ngo 1.20\n"
 			}
 			nf := r.Intn(6)
 			for i := 0; i < nf; i++ {
@@ -533,7 +541,7 @@ func dirSig(mods []modVersion) string {
 func main() {
 	vlib.Main("C20", "exploration", 10*time.Minute, func(r *vlib.Run) {
 		run = r
-		r.Rule("generated module directories: 1-5 modules x 1-5 versions (plain semver, pre-release with upper case, +incompatible, pseudo-versions, non-canonical versions), case-escaped paths, /vN suffixes, layouts .txt/.txtar/directory, nested files, dot files at top level and nested, .info with and without Short. Per server: .info/.mod/.zip/list for everything stored, and not-stored probes (unknown module, unknown version, unknown extension, version of another module, non-matching hex versions); the first requests are issued by 16-64 goroutines at once, then every URL again sequentially. Non-trivial = distinct (request kind, URL, directory).")
+		r.Rule("generated module directories: 1-5 modules x 1-5 versions (plain semver, pre-release with upper case, +incompatible, pseudo-versions, non-canonical versions), case-escaped paths, /vN suffixes, layouts .txt/.txtar/directory, nested files, dot files at top level and nested, .info with and without Short / Origin (percent-encoded URL), .mod with comments full of formatter and template syntax. Per server: .info/.mod/.zip/list for everything stored, and not-stored probes (unknown module, unknown version, unknown extension, version of another module, non-matching hex versions); the first requests are issued by 16-64 goroutines at once, then every URL again sequentially. Non-trivial = distinct (request kind, URL, directory).")
 		r.Assume("module paths containing '_' are not generated (the file-name encoding is ambiguous there); hex versions that are a prefix of / prefixed by a stored short hash or pseudo-version hash are not probed (commit-hash resolution is outside the statement)")
 		base := vlib.Scratch()
 		ns := r.Pick(150, 5000)
